@@ -138,7 +138,7 @@ def run(cx, out):
             arms = dict(top[0][2])
             # empty input: the prefix of the item count alone
             e_arm = arms['true']
-            okp = [x for x in sym.walk(e_arm) if x[0] == 'HELPER' and x[1] == 'compact_encode_len_to']
+            okp = [x for x in sym.walk(e_arm) if shape._is_count_helper(x)]
             first_sink = ctx.sinks['vec'][0] if ctx.sinks['vec'] else None
             if not okp or not first_sink or first_sink[0] != 'enc' or first_sink[1] != 'compact::Compact<u32>' or \
                     sym.vstr(first_sink[2]) != 'Compact::Compact{0: (len(into_iter(iter)) as u32)}':
